@@ -17,6 +17,8 @@ def shared_validator():
 
 def plain(x):
     """jsonref proxies -> plain dict/list"""
+    if hasattr(x, "entries") and hasattr(x, "pycls"):
+        return {k: plain(v) for k, v in x.entries}
     if isinstance(x, dict):
         return {k: plain(x[k]) for k in x}
     if isinstance(x, list):
